@@ -421,7 +421,7 @@ def eval_monad_shape(a, backend):
     def _shape(x): # strings count as the innermost dimension; ragged levels end the shape
         x = _normalize_backend_array(x)
         if isinstance(x, str):
-            return [] if isinstance(x, (KGSym, KGChar)) else [len(x)]
+            return [] if isinstance(x, (KGSym, KGChar)) or len(x) == 0 else [len(x)]
         if not is_list(x):
             return []
         if hasattr(x, 'dtype') and x.dtype != object:
